@@ -378,7 +378,13 @@ static std::string genBytes(bool forKey) {
     else if (w == 9) s += "\n\t\b\f\r"[*rng(0, 4)];
     else if (w == 10) { ll b = *rng(1, 32); s += (char) (b == 32 ? 127 : b); }
     else if (w == 11) { if (*rng(0, 1)) s += "\xc3\xa9"; else s += "\xe2\x82\xac"; }
-    else if (w == 12) s += (*rng(0, 1) ? "\\u00e9" : "\\uD83D");
+    else if (w == 12) {
+      // text that looks like an escape sequence (it is ordinary text: a backslash and some characters), every escape letter
+      // in both cases, with complete and incomplete hex runs
+      static const char *t[] = {"\\u00e9", "\\uD83D", "\\U0001F600", "\\UBEEF", "\\u12", "\\U12g4", "\\x41", "\\X41",
+                                "\\N", "\\T", "\\B", "\\F", "\\R", "\\n", "\\t", "\\0", "\\/", "\\'"};
+      s += t[*rng(0, 17)];
+    }
     else if (w == 13) { if (*rng(0, 7) == 0) s += '\0'; else s += (char) *rng(128, 255); }
     else if (w == 14) s += ":,{}[] #"[*rng(0, 7)];
     else if (w == 15) { static const char *t[] = {"//", "true", "null", "0x1F", "1e5", "-", "u0041", "n"}; s += t[*rng(0, 7)]; }
